@@ -2261,8 +2261,11 @@ class Power(Array):
             return
         func = self.func
         newpower = multiply(self.power, n)
-        if _certainly_even(self.power) and not _certainly_even(newpower):
-            func = abs(func)
+        if _certainly_even(self.power):
+            if not _certainly_even(newpower):
+                func = abs(func)
+        elif self.power.isconstant and (eval_once(self.power) % 2 == 0).any():
+            return # some, but not all, entries of the inner power are even
         return Power(func, newpower)
 
     def _takediag(self, axis1, axis2):
